@@ -156,6 +156,13 @@ def gen_cases(rng, quick):
             mask = rng.uniform(size=(n, m)) < p
             if k % 8 == 7:
                 mask[:] = True
+            if k % 8 == 3:
+                # every curve keeps the SAME NUMBER of samples and both end points; only the interior points differ
+                keep = int(rng.integers(3, m))
+                mask[:] = False
+                mask[:, [0, m - 1]] = True
+                for i in range(n):
+                    mask[i, 1 + rng.choice(m - 2, size=keep - 2, replace=False)] = True
             if (mask.sum(axis=1) >= 2).all() and mask.any(axis=0).all():
                 break
         if kindi < 3:
